@@ -234,7 +234,7 @@ type mutexLike interface {
 func Lock(m mutexLike, site string) {
 	s := forSite(site)
 	if s == nil {
-		m.Lock()
+		lockPlain(m.TryLock)
 		return
 	}
 	t := s.me("")
@@ -280,7 +280,7 @@ func Unlock(m mutexLike, site string) {
 func RLock(m *sync.RWMutex, site string) {
 	s := forSite(site)
 	if s == nil {
-		m.RLock()
+		lockPlain(m.TryRLock)
 		return
 	}
 	t := s.me("")
@@ -474,4 +474,25 @@ func SelectPick(site string, k, n int) int {
 		return i
 	}
 	return -1
+}
+
+
+// lockPlain takes a lock when no scheduler is in charge. A goroutine waiting on a sync.Mutex is not "durably
+// blocked" for testing/synctest, so if the holder is asleep in SIMULATED time (a slow application callback inside
+// the engine's critical section) the clock could never advance and the run would hang in real time. Brief
+// contention with a running holder is waited out by yielding; after that the waiter sleeps in simulated time,
+// which lets the holder's sleep end.
+func lockPlain(try func() bool) {
+	if try() {
+		return
+	}
+	for i := 0; i < 20000; i++ {
+		runtime.Gosched()
+		if try() {
+			return
+		}
+	}
+	for !try() {
+		time.Sleep(time.Millisecond)
+	}
 }
